@@ -762,7 +762,11 @@ func (w *c10World) histCorpus(r *vlib.Rand) {
 
 func (w *c10World) histories(r *vlib.Rand) {
 	w.histCorpus(r)
-	w.histExhaustive(r, vlib.Budget(3, 4))
+	depth := 3 // a length, not a count: the search budget must not multiply it
+	if vlib.Tier() == "thorough" {
+		depth = 4
+	}
+	w.histExhaustive(r, depth)
 	w.histRandom(r, vlib.Budget(1500, 40000))
 }
 
